@@ -103,7 +103,10 @@ var lazyPreamble = []struct {
 		"(assert (forall ((a Int) (b Int)) (! (= (deepEqual a b) (deepEqual b a)) :pattern ((deepEqual a b)))))",
 		"(assert (forall ((a Int) (b Int) (c Int)) (! (=> (and (deepEqual a b) (deepEqual b c)) (deepEqual a c)) :pattern ((deepEqual a b) (deepEqual b c)))))",
 	}},
-	{"bitor", []string{"(declare-fun bitor (Int Int) Int)"}},
+	{"bitor", []string{
+		"(declare-fun bitor (Int Int) Int)",
+		"(assert (forall ((x Int) (y Int)) (! (and (= (bitand (bitor x y) y) y) (= (bitand (bitor x y) x) x)) :pattern ((bitor x y)))))",
+	}},
 	{"bitxor", []string{"(declare-fun bitxor (Int Int) Int)"}},
 	{"bitandnot", []string{"(declare-fun bitandnot (Int Int) Int)"}},
 	{"shl", []string{"(declare-fun shl (Int Int) Int)"}},
